@@ -11,7 +11,9 @@ META = {
     "explanation": (
         "Crash/hang signatures decided on the source: (alloc) no allocation in the CBOR decoder is sized by a wire length "
         "(taint through abstract runs of the decoder source, shared with C11); (recursion) every cycle of the name-resolved "
-        "call graph that goes through a rule-name lookup passes a function that tests a visited/active set; (panic) census of "
+        "call graph that goes through a rule-name lookup passes a function that keeps a visited / in-progress set (tests membership in "
+        "and adds to one collection); (cyclic) the alias-following helpers outside the visitors are interpreted from their source on "
+        "cyclic type and group schemas and must return within the call-depth bound; (panic) census of "
         "unwrap/expect/panic-family sites in non-test code against a reviewed table with local proofs; (index) census of "
         "index/slice expressions against the frozen reviewed baseline; (rerender) no AST child is rendered twice on one path "
         "of a Display impl (exponential printing); (progress) the occurrence loop of the sequence matcher ends after one "
@@ -19,11 +21,8 @@ META = {
         "float / unchecked value arithmetic). Time bounds and absolute stack depth are not decided."),
     "assumptions": ["dependencies return Err instead of panicking (trusted)", "name-based call resolution covers free functions and self methods (strong edges)"],
     "trusted_base": ["syn 2 parser", "lib/cg.py", "lib/absint.py", "spec/c05_*.json reviewed tables"],
-    "technique": "static analysis: taint via abstract interpretation, call-graph cycle rule, census against reviewed tables, path rule on Display bodies",
+    "technique": "static analysis: taint via abstract interpretation, call-graph cycle rule, abstract interpretation of the rule-following helpers on cyclic schemas, census against reviewed tables, path rule on Display bodies",
 }
-
-GUARD_TOKENS = ("visited_rules", "active_group_refs", "visited", "seen", "in_progress", "recursion_guard")
-
 
 MEMBERSHIP_TESTS = {"contains", "contains_key", "any", "binary_search", "get", "position"}
 MEMBERSHIP_ADDS = {"push", "insert", "push_back", "push_front", "extend", "entry"}
@@ -853,7 +852,168 @@ def r_arith(ctx):
             ctx.violation(rid, key, file, line, "unchecked arithmetic on a document/schema number: %s" % ent["why"])
 
 
+
+# ------------------------------------------------------------------ cyclic schemas through the alias-following helpers
+CYC_FILES = ("src/validator/mod.rs", "src/validator/control.rs")
+
+
+def _cyc_ast():
+    """constructors of abstract AST values (the fields the helpers read; positions and comments are opaque)"""
+    from absint import MutList, OPAQUE
+
+    def ident(n):
+        return ("enum", "Identifier", {"ident": ("str", n), "socket": ("None",), "span": OPAQUE})
+
+    def t2name(n):
+        return ("enum", "Type2::Typename", {"ident": ident(n), "generic_args": ("None",), "span": OPAQUE})
+
+    def t2text(v):
+        return ("enum", "Type2::TextValue", {"value": ("str", v), "span": OPAQUE})
+
+    def t2uint(v):
+        return ("enum", "Type2::UintValue", {"value": v, "span": OPAQUE})
+
+    def ty(*t2s):
+        return ("enum", "Type", {"type_choices": MutList([("enum", "TypeChoice", {"type1": ("enum", "Type1", {"type2": t, "operator": ("None",), "span": OPAQUE,
+                                 "comments_after_type": ("None",)}), "comments_before_type": ("None",), "comments_after_type": ("None",)}) for t in t2s]), "span": OPAQUE})
+
+    def trule(name, *t2s):
+        return ("enum", "Rule::Type", {"rule": ("enum", "TypeRule", {"name": ident(name), "generic_params": ("None",), "is_type_choice_alternate": False,
+                                                                      "value": ty(*t2s)}), "span": OPAQUE})
+
+    def ge_name(n):
+        return ("enum", "GroupEntry::TypeGroupname", {"ge": ("enum", "TypeGroupnameEntry", {"occur": ("None",), "name": ident(n), "generic_args": ("None",)}), "span": OPAQUE})
+
+    def ge_member(key, t2):
+        return ("enum", "GroupEntry::ValueMemberKey", {"ge": ("enum", "ValueMemberKeyEntry", {"occur": ("None",), "member_key": ("Some", ("enum", "MemberKey::Bareword", {"ident": ident(key)})),
+                                                                                             "entry_type": ty(t2)}), "span": OPAQUE})
+
+    def gchoice(*ges):
+        return ("enum", "GroupChoice", {"group_entries": MutList([("tuple", [g, ("enum", "OptionalComma", {"optional_comma": False})]) for g in ges]), "span": OPAQUE})
+
+    def group(*gcs):
+        return ("enum", "Group", {"group_choices": MutList(list(gcs)), "span": OPAQUE})
+
+    def ge_inline(*ges):
+        return ("enum", "GroupEntry::InlineGroup", {"occur": ("None",), "group": group(gchoice(*ges)), "span": OPAQUE})
+
+    def grule(name, entry):
+        return ("enum", "Rule::Group", {"rule": ("enum", "GroupRule", {"name": ident(name), "generic_params": ("None",), "is_group_choice_alternate": False, "entry": entry}),
+                                        "span": OPAQUE})
+
+    def cddl(*rules):
+        return ("enum", "CDDL", {"rules": MutList(list(rules))})
+    return locals()
+
+
+def r_cyclic(ctx):
+    import absint
+    from absint import Interp, MutList, Return, Unknown, OPAQUE
+    rid = "C05.cyclic"
+    ctx.rule(rid, "the helpers of src/validator/{mod,control}.rs that follow rule names outside the visitors (literal collection for .cat/.plus, "
+                  "text_value_from_ident, unwrap_rule_from_ident, type_choices_from_group_choice, entry_counts_from_group, and the prelude "
+                  "classification predicates) return on cyclic schemas: each is interpreted from its source on a = a; a = b, b = a; a = b, b = c, "
+                  "c = a; a diamond; and the group cycles g = (x: 1, h), h = (y: 2, g), with every crate function it calls interpreted too; "
+                  "a run that exceeds the call-depth or step bound is reported as non-termination", floor=30)
+    f = ctx.facts
+    A = _cyc_ast()
+    ident, t2name, t2text, t2uint, trule, grule, ge_name, ge_member, ge_inline, gchoice, group, cddl = (A[k] for k in (
+        "ident", "t2name", "t2text", "t2uint", "trule", "grule", "ge_name", "ge_member", "ge_inline", "gchoice", "group", "cddl"))
+    cfg = absint.default_cfg
+    free = {}
+    for file in CYC_FILES:
+        for fi in f.fns(file):
+            if fi.impl_self is None and not fi.in_test and all(cfg(c) for c in fi.cfg):
+                free.setdefault(fi.name, fi)
+    type_schemas = {
+        "a = a": cddl(trule("a", t2name("a"))),
+        "a = b, b = a": cddl(trule("a", t2name("b")), trule("b", t2name("a"))),
+        "a = b, b = c, c = a": cddl(trule("a", t2name("b")), trule("b", t2name("c")), trule("c", t2name("a"))),
+        "a = b / \"x\", b = a / 1": cddl(trule("a", t2name("b"), t2text("x")), trule("b", t2name("a"), t2uint(1))),
+        "a = b / c, b = d, c = d, d = \"x\" (acyclic diamond)": cddl(trule("a", t2name("b"), t2name("c")), trule("b", t2name("d")), trule("c", t2name("d")),
+                                                                  trule("d", t2text("x"))),
+    }
+    group_schemas = {
+        "g = (x: 1, h), h = (y: 2, g)": cddl(grule("g", ge_inline(ge_member("x", t2uint(1)), ge_name("h"))), grule("h", ge_inline(ge_member("y", t2uint(2)), ge_name("g")))),
+        "g = (g)": cddl(grule("g", ge_inline(ge_name("g")))),
+        "g = (x: 1, h), h = (y: 2) (acyclic)": cddl(grule("g", ge_inline(ge_member("x", t2uint(1)), ge_name("h"))), grule("h", ge_inline(ge_member("y", t2uint(2))))),
+    }
+    # entry points: name -> (argument builder, schemas)
+    by_ident = lambda c: [c, ident("a")]
+    entries = []
+    for name in ("string_literals_from_ident", "numeric_values_from_ident", "text_value_from_ident", "unwrap_rule_from_ident"):
+        entries.append((name, by_ident, type_schemas))
+    for name in sorted(free):
+        if name.startswith("is_ident_") and len([i for i in free[name].node["sig"]["inputs"]]) == 2:
+            entries.append((name, by_ident, type_schemas))
+    entries.append(("cat_operation", lambda c: [c, t2text("x"), t2name("a"), False], type_schemas))
+    entries.append(("cat_operation", lambda c: [c, t2name("a"), t2text("x"), False], type_schemas))
+    entries.append(("plus_operation", lambda c: [c, t2uint(1), t2name("a")], type_schemas))
+    entries.append(("plus_operation", lambda c: [c, t2name("a"), t2uint(1)], type_schemas))
+    entries.append(("type_choices_from_group_choice", lambda c: [c, gchoice(ge_name("g"))], group_schemas))
+    entries.append(("entry_counts_from_group", lambda c: [c, group(gchoice(ge_name("g")))], group_schemas))
+
+    depth = [0]
+
+    def on_call(kind, nm, node, args, recv):
+        if kind == "fn" and nm:
+            base = nm.split("::")[-1]
+            if nm in ("GroupChoice::new",) and args:
+                lst = args[0][1] if isinstance(args[0], tuple) and args[0][:1] == ("list",) else list(args[0])
+                return gchoice(*lst)
+            if base in free and (len(nm.split("::")) == 1 or nm.split("::")[0] in ("crate", "super", "self", "validator", "control")):
+                depth[0] += 1
+                try:
+                    if depth[0] > 40:
+                        raise Unknown("call depth 40 exceeded in %s" % base)
+                    return (absint.CURRENT or it_holder[0]).call_fn_node(free[base].node, args)
+                finally:
+                    depth[0] -= 1
+            if base == "lookup_ident":
+                return ("enum", "Token::IDENT", [args[0] if args else OPAQUE])
+        if kind == "method":
+            if nm == "into" and isinstance(recv, tuple) and len(recv) == 3 and isinstance(recv[1], str) and recv[1].startswith("GroupEntry::"):
+                return group(gchoice(recv))
+        return NotImplemented
+    it_holder = [None]
+    n = 0
+    for name, mkargs, schemas in entries:
+        fi = free.get(name)
+        if fi is None:
+            ctx.incomplete_msg(rid, "%s not found in %s" % (name, "/".join(CYC_FILES)))
+            continue
+        for label, c in schemas.items():
+            it = Interp(env={}, cfg=cfg, on_call=on_call, max_steps=60000)
+            it._inline_depth = 0
+            it.fn_items = lambda nm: nm in free
+            it_holder[0] = it
+            depth[0] = 0
+            args = mkargs(c)
+            key = "%s(%s)|%s" % (name, ",".join(a[1].split("::")[-1] for a in args[1:] if isinstance(a, tuple) and a[:1] == ("enum",)), label)
+            try:
+                res = it.call_fn_node(fi.node, args)
+                verdict = "returns"
+            except Unknown as e:
+                msg = str(e)
+                if "depth" in msg or "step limit" in msg:
+                    verdict = "does not return: %s" % msg
+                else:
+                    verdict = None
+                    ctx.incomplete_msg(rid, "%s: %s" % (key, msg))
+            except RecursionError:
+                verdict = "does not return: recursion without bound"
+            n += 1
+            ctx.site(rid, key, fi.file, fi.line, {"verdict": verdict})
+            if verdict and verdict != "returns":
+                ctx.violation(rid, "%s|%s" % (name, "cyclic" if "acyclic" not in label else "acyclic"), fi.file, fi.line,
+                              "%s on the schema `%s` %s — a cyclic rule reference overflows the stack or hangs" % (name, label, verdict))
+    ctx.extra["evaluations"] = ctx.extra.get("evaluations", 0) + n
+    ctx.extra["distinct_nontrivial"] = ctx.extra.get("distinct_nontrivial", 0) + n
+
+
+
 def run(ctx):
+    ctx.guarded("C05.cyclic", r_cyclic)
     ctx.guarded("C05.arith", r_arith)
     ctx.guarded("C05.progress", r_progress)
     ctx.guarded("C05.alloc", r_alloc)
